@@ -51,7 +51,7 @@ CHECKS = {
         "level": "model_checking",
         "engine": "E2",
         "technique": "explicit-state enumeration of operation sequences on the real queue vs reference list; stateless model checking (pre-emption-bounded) of concurrent queue operations against all sequential orders",
-        "level_text": "Every sequence of the public queue operations up to depth 4 (quick) / 5 (thorough) over a 24-operation alphabet with present, absent and duplicated ids, plus BFS over canonical states to depth 7/10, and every sequence of scripted handler results (Success/Keep/Fail/Repeat x head/after/tail lists x delay x an operation issued inside the handler) of depth 2/3 through the real Start() worker loop (the three lists a handler returns being sub-slices of one backing array with spare capacity; filter predicates that carry state included), is executed on the real TaskQueue and compared with a slice reference after every step. Part c (controlled scheduler, pre-emption bound 2 quick / 3 thorough): every pair (thorough: and every triple of a 12-operation alphabet) of operations issued from two / three threads on four initial layouts - final content and removals' return values must be those of the operations in some order - and the real worker handling the head with six scripted results while another thread issues one of nine operations: nothing lost, duplicated or invented, initial tasks keep their relative order, no empty slot, right length. Bounded-exhaustive: nothing outside the alphabets/depths/bounds is covered.",
+        "level_text": "Every sequence of the public queue operations up to depth 4 (quick) / 5 (thorough) over a 24-operation alphabet with present, absent and duplicated ids, plus BFS over canonical states to depth 7/10, and every sequence of scripted handler results (Success/Keep/Fail/Repeat x head/after/tail lists x delay x an operation issued inside the handler) of depth 2/3 through the real Start() worker loop (the three lists a handler returns being sub-slices of one backing array with spare capacity; filter predicates that carry state included), is executed on the real TaskQueue and compared with a slice reference after every step. Part c (controlled scheduler, pre-emption bound 2 quick / 3 thorough): every pair (thorough: and every triple of a 12-operation alphabet) of operations issued from two / three threads on four initial layouts - final content and removals' return values must be those of the operations in some order - and the real worker handling the head with six scripted results while another thread issues one of nine operations: nothing lost, duplicated or invented, initial tasks keep their relative order, no empty slot, right length. Bounded-exhaustive: nothing outside the alphabets/depths/bounds is covered. Iterate is one of the observed operations (with a yield inside its callback in part c).",
         "level_note": "Trusted: the Go reference list in the harness; task.BaseTask. Handler-result part runs the worker with 20us timing constants in real time (liveness only; no clock oracle). Part c compiles task_queue.go with its lock operations as scheduling points; the queue inside the assembled operator is covered by C03/C07/C17.",
         "rule": "every sequence of public queue operations (24-op alphabet over present/absent/duplicate ids) up to the stated depth on the real TaskQueue vs a slice reference, plus BFS over canonical states; every sequence of scripted handler results through the real Start() worker loop. Non-trivial = uses an operation other than AddLast / a handler step other than plain Success; distinct = distinct final queue content",
         "assumptions": ["part b uses real time with 20us timing constants for liveness only; the oracle looks at queue content at handler entry and in AfterHandle, never at the clock"],
@@ -108,7 +108,7 @@ CHECKS = {
         "level": "model_checking",
         "engine": "E2",
         "technique": "exhaustive enumeration of metric batch histories on the real storage vs reference registry (full Gather() comparison)",
-        "level_text": "Every history of 1-2 (thorough: up to 3) batches of 1-2 (thorough: 3) operation documents from a 21-operation alphabet (ungrouped add/set/observe, grouped add/set/expire, add/set shortcuts, integer and fractional values, label sets of different shape, names reused across groups and outside groups, six invalid variants), sent by two hooks through the real JSON parser and the real SendBatch; (the JSON stream laid out one value per line, several on a line, or spread over lines) after every batch the complete Gather() output of the registry is compared with a reference registry written from the statement; an invalid operation must give an error and leave the registry untouched.",
+        "level_text": "Every history of 1-2 (thorough: up to 3) batches of 1-2 (thorough: 3) operation documents from a 21-operation alphabet (ungrouped add/set/observe, grouped add/set/expire, add/set shortcuts, integer and fractional values, label sets of different shape, names reused across groups and outside groups, six invalid variants), sent by two hooks through the real JSON parser and the real SendBatch; (the JSON stream laid out one value per line, several on a line, or spread over lines) after every batch the complete Gather() output of the registry is compared with a reference registry written from the statement; an invalid operation must give an error and leave the registry untouched. Empty label values, the {PREFIX} template in grouped metrics and a non-empty storage prefix are in the alphabet.",
         "level_note": "Trusted: prometheus client (Gather), the reference registry in the harness. Identical series (same name and labels) reported under two different groups are left out of the space: an exposition cannot hold both and the statement does not say which wins.",
         "rule": "product enumeration of batches from the alphabet x hooks; non-trivial = history of >= 2 batches; distinct = distinct final registry",
         "parts": [
@@ -132,7 +132,7 @@ CHECKS = {
         "level": "model_checking",
         "engine": "E1",
         "technique": "stateless model checking: deviation-bounded DFS over all interleavings of the instrumented informer/monitor code under a controlled scheduler",
-        "level_text": "Level 1: the real kubeEventsManager, monitor and resourceInformer sources are compiled with their lock, channel, goroutine-start operations and unsynchronised flags as scheduling points and run under a hand-written controlled scheduler; client-go informers are replaced by a hub with one FIFO and one delivery thread per handler. For every scenario (6 histories of <=3 changes over 2 objects / 2 namespaces x {no filter, object-valued jqFilter, full objects dropped, Modified only} x {0,1} extra snapshot readers, namespace.labelSelector with a namespace appearing after start, slow consumer) the environment timing (deliveries before the Synchronization view and before the unlock, reader phase) is enumerated and ALL interleavings of informer delivery, Synchronization (Snapshot; hook; EnableKubeEventCb), extra readers and the event-channel consumer with at most 2 (quick; 1 for the larger scenarios) / 3 (thorough) pre-emptions are executed; each is checked with the suffix oracle against the environment's own mutation log (no early event, per-object order, no loss). Level 2: the real ShellOperator.Start() with a plain binding, a binding in its own queue and two bindings of one group, the Synchronization execution failing 0..1 (2) times, changes arriving while it fails and afterwards (each later change at once or after the operator went quiet), all schedules within 1 (2) deviations of the default scheduler; oracle on what the hook is given: no Event before the successful Synchronization, versions in order, the hook's view ends at the cluster's final state (for a group: the last Group execution shows the final state of every binding).",
+        "level_text": "Level 1: the real kubeEventsManager, monitor and resourceInformer sources are compiled with their lock, channel, goroutine-start operations and unsynchronised flags as scheduling points and run under a hand-written controlled scheduler; client-go informers are replaced by a hub with one FIFO and one delivery thread per handler. For every scenario (6 histories of <=3 changes over 2 objects / 2 namespaces x {no filter, object-valued jqFilter, full objects dropped, Modified only} x {0,1} extra snapshot readers, namespace.labelSelector with a namespace appearing after start, slow consumer) the environment timing (deliveries before the Synchronization view and before the unlock, reader phase) is enumerated and ALL interleavings of informer delivery, Synchronization (Snapshot; hook; EnableKubeEventCb), extra readers and the event-channel consumer with at most 2 (quick; 1 for the larger scenarios) / 3 (thorough) pre-emptions are executed; each is checked with the suffix oracle against the environment's own mutation log (no early event, per-object order, no loss). Level 2: the real ShellOperator.Start() with a plain binding, a binding in its own queue and two bindings of one group, the Synchronization execution failing 0..1 (2) times, changes arriving while it fails and afterwards (each later change at once or after the operator went quiet), all schedules within 1 (2) deviations of the default scheduler; oracle on what the hook is given: no Event before the successful Synchronization, versions in order, the hook's view ends at the cluster's final state (for a group: the last Group execution shows the final state of every binding). A hook with two kubernetes bindings without a name is one of the operator-level configurations.",
         "level_note": "Trusted: the hub as a model of client-go's per-handler ordered delivery (its event sequences are compared with real client-go informers on the fake cluster by the conformance part of C02), the fake cluster, the scheduler (vrt), the process stand-in at level 2. Scheduling granularity: lock acquisition, channel ops, goroutine start, listed racy fields (cross-checked by part kemrace, a free-running race-detector pass with real client-go informers that adds nothing to the counters); sequential consistency assumed. Level 2 also holds one execution at a gate while the next change arrives. Bounded: histories, configurations and the bounds are listed in the evidence.",
         "rule": "DFS over choice sequences (thread to run at each scheduling point) with at most N pre-emptions; non-trivial = execution with >= 1 pre-emption; distinct = distinct (Synchronization view, delivered event sequence) per scenario",
         "assumptions": ["informer hub models client-go: per-handler FIFO, initial LIST enqueued at registration, arbitrary lag"],
@@ -163,7 +163,7 @@ CHECKS = {
         "level": "model_checking",
         "engine": "E1",
         "technique": "stateless model checking of the assembled operator under a controlled scheduler: shutdown injected at every enumerated point, delay-bounded DFS, virtual clock",
-        "level_text": "Scenario of C03 plus a thread running the operator's own Shutdown() sequence. The moment of the shutdown request is enumerated (after k = 0..12 quick / 0..24 thorough task-handling and hook-run events: queues empty, in a back-off delay after failures, in the middle of a handler, with ticks and events still arriving), and around each such point all schedules with at most 1 (quick) / 2 (thorough) deviations from the default scheduler are executed. Oracle: after the stop request a queue starts at most the task it had already picked (none if its handler was running), each worker reaches its final state at the virtual instant of max(stop request, return of its current handler) i.e. without any timer firing, Shutdown returns, and no hook is executed once all workers have stopped. Part b: the real TaskQueue alone under the scheduler: six handler results (every kind of delay between two tasks: DelayOnRepeat, DelayBeforeNextTask shorter / longer than the wait loop's check interval, the failure back-off, an empty queue) x Stop() at six virtual offsets strictly inside that delay, inside a running handler, on an empty queue, or together with an arriving task on an idle queue, delay bound 1 / 2 with both ready arms of a select explored: no handler call begins after the request and the worker reaches its final state at the virtual instant of the request (of its running handler's return).",
+        "level_text": "Scenario of C03 plus a thread running the operator's own Shutdown() sequence. The moment of the shutdown request is enumerated (after k = 0..12 quick / 0..24 thorough task-handling and hook-run events: queues empty, in a back-off delay after failures, in the middle of a handler, with ticks and events still arriving), and around each such point all schedules with at most 1 (quick) / 2 (thorough) deviations from the default scheduler are executed. Oracle: after the stop request a queue starts at most the task it had already picked (none if its handler was running), each worker reaches its final state at the virtual instant of max(stop request, return of its current handler) i.e. without any timer firing, Shutdown returns, and no hook is executed once all workers have stopped. Part b: the real TaskQueue alone under the scheduler: six handler results (every kind of delay between two tasks: DelayOnRepeat, DelayBeforeNextTask shorter / longer than the wait loop's check interval, the failure back-off, an empty queue) x Stop() at six virtual offsets strictly inside that delay, inside a running handler, on an empty queue, or together with an arriving task on an idle queue, delay bound 1 / 2 with both ready arms of a select explored: no handler call begins after the request and the worker reaches its final state at the virtual instant of the request (of its running handler's return). Mode listing: another thread walks the queue set (TaskQueueSet.Iterate) while ticks and events arrive, then Shutdown is requested.",
         "level_note": "Trusted: scheduler, hub, process stand-in, virtual clock. The queue's status string is read only to observe when a worker has terminated.",
         "rule": "for each (mode, stop point k): DFS over thread choices with at most N deviations; non-trivial = k > 0 or a deviation taken; distinct = distinct (worker stop times, execution list)",
         "parts": [
@@ -189,7 +189,7 @@ CHECKS = {
         "level": "model_checking",
         "engine": "E2+E1",
         "technique": "exhaustive enumeration of ORDER assignments on the real hook manager; stateless model checking (delay-bounded) of operator start-up over generated hook sets and start-up failures",
-        "level_text": "Part a: GetHooksInOrder(OnStartup) on a real Manager for every assignment of ORDER in {1,2,3} to 1..9 (10) hooks and of ORDER in {1,2} to 13,14 (..17) hooks; oracle: ascending ORDER, ties in path order. Part b: the real Start() on generated hook sets (1-3 hooks from a menu mixing onStartup, kubernetes bindings with and without group, executeHookOnSynchronization false, a v0 hook, schedules, a named queue; plus a group whose first / last binding has executeHookOnSynchronization false, a group whose bindings are not declared next to each other, two ungrouped kubernetes bindings, two ungrouped bindings with the second in a named queue, and sets in which the first LIST for the second binding fails so that enabling the bindings is retried) with an environment firing ticks and cluster changes from the very first moment and with the j-th start-up execution failing k in {0,1,2} times; all schedules within the delay bound; oracle on the execution log: onStartup hooks exactly once in (ORDER, path) order before anything else, then per hook in path order each binding's Synchronization once (one execution per group, none when switched off or v0) in main, before any Event of that binding and before any Schedule task of that hook.",
+        "level_text": "Part a: GetHooksInOrder(OnStartup) on a real Manager for every assignment of ORDER in {1,2,3} to 1..9 (10) hooks and of ORDER in {1,2} to 13,14 (..17) hooks; oracle: ascending ORDER, ties in path order. Part b: the real Start() on generated hook sets (1-3 hooks from a menu mixing onStartup, kubernetes bindings with and without group, executeHookOnSynchronization false, a v0 hook, schedules, a named queue; plus a group whose first / last binding has executeHookOnSynchronization false, a group whose bindings are not declared next to each other, two ungrouped kubernetes bindings, two ungrouped bindings with the second in a named queue, and sets in which the first LIST for the second binding fails so that enabling the bindings is retried) with an environment firing ticks and cluster changes from the very first moment and with the j-th start-up execution failing k in {0,1,2} times; all schedules within the delay bound; oracle on the execution log: onStartup hooks exactly once in (ORDER, path) order before anything else, then per hook in path order each binding's Synchronization once (one execution per group, none when switched off or v0) in main, before any Event of that binding and before any Schedule task of that hook. Outside the start-up executions every context runs in the queue of its own binding (a start-up execution delivered twice is reported); hook shapes include a group whose bindings use a named queue.",
         "level_note": "Trusted: scheduler, hub, process stand-in, fake cluster, reference in the harness.",
         "rule": "product enumeration (part a); hook sets x failure injection x DFS over schedules within the bound (part b); non-trivial = ties in ORDER / a failure or deviation; distinct = distinct order / execution log",
         "parts": [
@@ -202,7 +202,7 @@ CHECKS = {
         "level": "model_checking",
         "engine": "E1",
         "technique": "exhaustive enumeration of arrival patterns x (interval, burst) on the assembled operator with the rate limiter compiled against the virtual clock",
-        "level_text": "golang.org/x/time/rate is compiled (by overlay) against the virtual-time shim, so the limiter's clock reads and timer waits are owned by the scheduler. For (I,B) in {(1s,1),(2s,3),(500ms,2)} and for a hook without settings, every arrival pattern of up to 4 (quick) / 5 (thorough) changes with gaps from {0, I/2, I, 2I} and hook durations {0, I} is run through the real operator (Synchronization run included), also for a hook with three kubernetes bindings (three Synchronization executions back to back) a hook whose bindings use two queues, and a second hook sharing the throttled hook's queue; oracle on the virtual start times of the hook's executions: for all i<j, j-i+1 <= B + ceil((t_j-t_i)/I); a hook without settings in another queue starts when its event arrives; without settings a hook is delayed only by its own previous run.",
+        "level_text": "golang.org/x/time/rate is compiled (by overlay) against the virtual-time shim, so the limiter's clock reads and timer waits are owned by the scheduler. For (I,B) in {(1s,1),(2s,3),(500ms,2)} and for a hook without settings, every arrival pattern of up to 4 (quick) / 5 (thorough) changes with gaps from {0, I/2, I, 2I} and hook durations {0, I} is run through the real operator (Synchronization run included), also for a hook with three kubernetes bindings (three Synchronization executions back to back) a hook whose bindings use two queues, and a second hook sharing the throttled hook's queue; oracle on the virtual start times of the hook's executions: for all i<j, j-i+1 <= B + ceil((t_j-t_i)/I); a hook without settings in another queue starts when its event arrives; without settings a hook is delayed only by its own previous run. Hook shapes include a hook that also serves an admission binding; intervals of 30 s and 1 m with context deadlines on the virtual clock.",
         "level_note": "Trusted: virtual clock and scheduler; x/time/rate itself is the instrumented real source from the module cache. Default schedule only (the property quantifies over arrival patterns; interleavings of the queue machinery are explored by C03/C17).",
         "rule": "product enumeration of (I,B) x gap sequences x hook duration; non-trivial = >= 2 arrivals; distinct = distinct start-time sequence",
         "parts": [
@@ -217,7 +217,7 @@ CHECKS = {
         "level": "model_checking",
         "engine": "E2",
         "technique": "exhaustive enumeration of small directory trees on a real file system vs the discovery rule; enumeration of hook layouts x failing --config choice through the real Manager.Init with real processes",
-        "level_text": "Part a: every tree of one entry (path of up to 3 components over directories {sub, lib, .hid, x.d} x 8 file names x 5 permission modes and a symbolic link to an executable) under hooks directories named hooks / lib / .hooks, every pair from a 50-entry pool and (thorough) every triple from a 30-entry pool is created on tmpfs; RecursiveGetExecutablePaths must return exactly the files the statement's rule selects. Part b: Manager.Init on 9 hook layouts (name collisions across directories, directory/file name prefixes whose walk order differs from lexical order, blanks, case) with real /bin/sh hooks that log each --config call, plus lib/, hidden, non-executable and excluded-extension noise; for the healthy layout and for every choice of one hook whose --config fails in one of six ways (silent exit 1, exit 127 with stderr, exit 2 with stdout and stderr, invalid configuration, invalid with stderr, neither JSON nor YAML): names = relative paths in lexical order, one --config call per hook, none for non-hooks, failure names the hook.",
+        "level_text": "Part a: every tree of one entry (path of up to 3 components over directories {sub, lib, .hid, x.d} x 8 file names x 5 permission modes and a symbolic link to an executable) under hooks directories named hooks / lib / .hooks, every pair from a 50-entry pool and (thorough) every triple from a 30-entry pool is created on tmpfs; RecursiveGetExecutablePaths must return exactly the files the statement's rule selects. Part b: Manager.Init on 9 hook layouts (name collisions across directories, directory/file name prefixes whose walk order differs from lexical order, blanks, case) with real /bin/sh hooks that log each --config call, plus lib/, hidden, non-executable and excluded-extension noise; for the healthy layout and for every choice of one hook whose --config fails in one of six ways (silent exit 1, exit 127 with stderr, exit 2 with stdout and stderr, invalid configuration, invalid with stderr, neither JSON nor YAML): names = relative paths in lexical order, one --config call per hook, none for non-hooks, failure names the hook. Also with the hooks directory given through a symbolic link (names stay relative to the given path).",
         "level_note": "Trusted: the file system (tmpfs), /bin/sh. Runs as root, so permission bits are not enforced on execution.",
         "rule": "enumeration of entry sets / (layout, failing hook, kind); non-trivial = nested path or more than one entry; distinct = distinct discovered set / loaded order",
         "parts": [
@@ -229,7 +229,7 @@ CHECKS = {
         "level": "model_checking",
         "engine": "E2",
         "technique": "exhaustive enumeration of (context type, handler subset, binding name, array shape, failing position) on the real bash framework with real bash and jq",
-        "level_text": "Generated hook scripts source the working tree's shell_lib.sh and frameworks/shell/*.sh and define a chosen subset of handler functions that log their name and BINDING_CONTEXT_CURRENT_INDEX and return a scripted status. Enumerated: 13 context types (two without a type field, as configVersion v0 hooks get them; one Synchronization of about 350 KB) x every subset of that type's candidate handler names plus __main__ x binding names {pods, my-binding, 'Monitor pods in cache tier'} with the selected handler succeeding, failing with an explicit status or failing in strict mode (a command in its middle fails); arrays of 2-3 contexts of different types with a failing, strict-failing, missing or stdin-reading handler at each position; --config. Oracle: exactly the first defined candidate (most to least specific, then __main__) is invoked per context with that context's index, the run stops with a non-zero status at the first failing or unserved context and succeeds otherwise.",
+        "level_text": "Generated hook scripts source the working tree's shell_lib.sh and frameworks/shell/*.sh and define a chosen subset of handler functions that log their name and BINDING_CONTEXT_CURRENT_INDEX and return a scripted status. Enumerated: 13 context types (two without a type field, as configVersion v0 hooks get them; one Synchronization of about 350 KB) x every subset of that type's candidate handler names plus __main__ x binding names {pods, my-binding, 'Monitor pods in cache tier'} with the selected handler succeeding, failing with an explicit status or failing in strict mode (a command in its middle fails); arrays of 2-3 contexts of different types with a failing, strict-failing, missing or stdin-reading handler at each position; --config. Oracle: exactly the first defined candidate (most to least specific, then __main__) is invoked per context with that context's index, the run stops with a non-zero status at the first failing or unserved context and succeeds otherwise. Arrays of 9, 10, 12 and 25 contexts; handlers that leave with exit 0 or switch set +e.",
         "level_note": "Trusted: bash and jq of the image. The candidate lists in the reference are taken from the framework source, which is the only place they are documented.",
         "rule": "product enumeration; non-trivial = more than one handler defined or more than one context; distinct = distinct (invoked handlers, success)",
         "parts": [
@@ -240,7 +240,7 @@ CHECKS = {
         "level": "model_checking",
         "engine": "E2",
         "technique": "exhaustive enumeration of operation-document streams x encodings x initial cluster states on the real parser and patcher vs a reference interpreter",
-        "level_text": "Every stream of 1-2 documents and a spread (thorough: all) of 3-document streams over 11-12 valid operations (Create / CreateIfNotExists / CreateOrUpdate, delete variants, MergePatch / JSONPatch / JQPatch, objects and patches inline and as strings, integer / float / bool fields, ignoreMissingObject) and 9 invalid documents (7 single-fault ones and a stray closing brace / bracket), written as a JSON stream and as a YAML stream, goes through the real ParseOperations and ObjectPatcher.ExecuteOperations on a fake cluster with the object absent or present. Oracle: an invalid document anywhere gives an error and an untouched cluster; otherwise the final cluster equals a reference interpreter applying the operations once each in order, an apply-time error is reported exactly when the reference predicts one, nothing panics, and both encodings decode to deep-equal operation specs (numeric types included). Plus CreateOrUpdate of string-only objects in 4 encodings against 5 existing states: the object ends exactly as the document says.",
+        "level_text": "Every stream of 1-2 documents and a spread (thorough: all) of 3-document streams over 11-12 valid operations (Create / CreateIfNotExists / CreateOrUpdate, delete variants, MergePatch / JSONPatch / JQPatch, objects and patches inline and as strings, integer / float / bool fields, ignoreMissingObject) and 9 invalid documents (7 single-fault ones and a stray closing brace / bracket), written as a JSON stream and as a YAML stream, goes through the real ParseOperations and ObjectPatcher.ExecuteOperations on a fake cluster with the object absent or present. Oracle: an invalid document anywhere gives an error and an untouched cluster; otherwise the final cluster equals a reference interpreter applying the operations once each in order, an apply-time error is reported exactly when the reference predicts one, nothing panics, and both encodings decode to deep-equal operation specs (numeric types included). Plus CreateOrUpdate of string-only objects in 4 encodings against 5 existing states: the object ends exactly as the document says. Plus dependent documents: a kind that is served only once its definition exists (5 streams x 2 encodings) - the cluster must end as applying the documents one after another ends; JSONPatch with value-less and copy items.",
         "level_note": "Trusted: the fake dynamic client as cluster, gojq, the reference interpreter. 'Invalid' is limited to the unmistakable faults of docs/src/KUBERNETES.md. Foreground Delete (polls with a real 1 s interval) only in the thorough tier; subresource is not exercised (the fake client ignores it).",
         "rule": "product enumeration of document streams x {absent, present}; non-trivial = more than one document; distinct = distinct (final cluster, error)",
         "parts": [
@@ -277,7 +277,7 @@ CHECKS = {
         "level": "model_checking",
         "engine": "E2",
         "technique": "exhaustive enumeration of binding option vectors through the real end-to-end path (informer -> controllers -> UpdateSnapshots -> JSON file read by the hook) vs a reference renderer",
-        "level_text": "For each of 48 option vectors (jqFilter x keepFullObjectsInMemory x includeSnapshotsFrom {none, itself, another binding} x group x snapshots included by the schedule / validating / mutating / conversion bindings) a hook is loaded into the real operator (scheduler-controlled, default schedule, hub and process stand-in) and webhook requests before Start() (bindings not enabled yet), start-up, Added / Modified / Deleted changes (the Deleted notification carrying a final state nobody has seen), a tick, two admission requests and a conversion request are played; every binding context read from the real BINDING_CONTEXT_PATH file (onStartup, Synchronization, Event x3, Group, Schedule, Validating, Mutating, Conversion) is checked against a reference renderer written from docs/src/HOOKS.md: required / forbidden keys per type, filterResult equal to the jq result of that very object, object present iff full objects are kept, snapshots present iff the binding includes snapshots, with exactly the documented keys and every one of them a list; every kind of context must have been delivered. One configVersion v0 scenario: short-form contexts with resourceEvent / resourceNamespace / resourceKind / resourceName of the object concerned, no snapshots.",
+        "level_text": "For each of 48 option vectors (jqFilter x keepFullObjectsInMemory x includeSnapshotsFrom {none, itself, another binding} x group x snapshots included by the schedule / validating / mutating / conversion bindings) a hook is loaded into the real operator (scheduler-controlled, default schedule, hub and process stand-in) and webhook requests before Start() (bindings not enabled yet), start-up, Added / Modified / Deleted changes (the Deleted notification carrying a final state nobody has seen), a tick, two admission requests and a conversion request are played; every binding context read from the real BINDING_CONTEXT_PATH file (onStartup, Synchronization, Event x3, Group, Schedule, Validating, Mutating, Conversion) is checked against a reference renderer written from docs/src/HOOKS.md: required / forbidden keys per type, filterResult equal to the jq result of that very object, object present iff full objects are kept, snapshots present iff the binding includes snapshots, with exactly the documented keys and every one of them a list; every kind of context must have been delivered. One configVersion v0 scenario: short-form contexts with resourceEvent / resourceNamespace / resourceKind / resourceName of the object concerned, no snapshots. Plus a combined array whose items belong to a kubernetes and a schedule binding with the same name and different includeSnapshotsFrom: every item carries the snapshots of its own binding.",
         "level_note": "Trusted: hub and stand-in, gojq for the reference filterResult, the reference renderer. Snapshot contents are C02's subject; v0 rendering is exercised by C06 (v0 hook in the start-up sets).",
         "rule": "product enumeration of option vectors, one scripted event history each; non-trivial = any non-default option; distinct = distinct option vector",
         "parts": [
@@ -289,7 +289,7 @@ CHECKS = {
         "level": "model_checking",
         "engine": "E2+E1",
         "technique": "exhaustive enumeration of cluster histories x monitor configurations on the real monitor/informer code vs reference sets (plus restart differential); stateless model checking of the start-up window and of concurrent snapshot reads inside one execution",
-        "level_text": "Part a: every history of up to 3 (quick) / 4 (thorough) steps over 16 operations (create / modify / delete of objects in three namespaces, a change outside the binding's projection, a labelled namespace deleted with its objects, a labelled namespace appearing) with synchronous delivery, for 14 monitor configurations (all namespaces | namespace.nameSelector | namespace.labelSelector x matchNames x jqFilter x keepFullObjectsInMemory, and three namespaces named in non-alphabetical order so that one monitor has several informers): after every step the real Snapshot() equals the reference computed from the cluster (same elements once each, sorted by namespace/name, projection, object presence and - when full objects are kept - the object's field outside the projection per item) and equals the snapshot of a fresh monitor on the same cluster (restart). Part b: environment changes interleaved by the scheduler with AddMonitor's LIST and StartMonitor's LIST (5 histories, bound 1/2): once quiet the snapshot equals the cluster. Part c: at operator level, hook executions whose contexts mention one binding several times (Synchronization objects, self-include, group, includeSnapshotsFrom from other bindings and queues) with informer deliveries interleaved: inside one execution every occurrence of a binding's snapshot is identical and the keys of snapshots are exactly the declared ones.",
+        "level_text": "Part a: every history of up to 3 (quick) / 4 (thorough) steps over 16 operations (create / modify / delete of objects in three namespaces, a change outside the binding's projection, a labelled namespace deleted with its objects, a labelled namespace appearing) with synchronous delivery, for 14 monitor configurations (all namespaces | namespace.nameSelector | namespace.labelSelector x matchNames x jqFilter x keepFullObjectsInMemory, and three namespaces named in non-alphabetical order so that one monitor has several informers): after every step the real Snapshot() equals the reference computed from the cluster (same elements once each, sorted by namespace/name, projection, object presence and - when full objects are kept - the object's field outside the projection per item) and equals the snapshot of a fresh monitor on the same cluster (restart). Part b: environment changes interleaved by the scheduler with AddMonitor's LIST and StartMonitor's LIST (5 histories, bound 1/2): once quiet the snapshot equals the cluster. Part c: at operator level, hook executions whose contexts mention one binding several times (Synchronization objects, self-include, group, includeSnapshotsFrom from other bindings and queues) with informer deliveries interleaved: inside one execution every occurrence of a binding's snapshot is identical and the keys of snapshots are exactly the declared ones. The hub conformance part also stops one of two handlers that share an informer factory: the remaining one keeps following the cluster, in real client-go and in the hub alike.",
         "level_note": "Trusted: hub (per-handler FIFO), fake cluster with a list reactor honouring metadata.name, reference sets. Configurations whose documented meaning is ambiguous are left out (nameSelector and labelSelector on one binding; two bindings with one name). Part hubconf: the informer hub used by every scheduler-controlled check is compared with real client-go shared informers started by the repository's own FactoryStore.Start / namespaceInformer.start: all histories up to depth 3 (quick) / 4 (thorough) over 12 operations x every registration moment of 1-2 handlers, identical per-handler callback sequences step by step (selector configurations: initial LIST only, the fake WATCH does not filter).",
         "rule": "product enumeration of histories x configurations (part a); DFS over interleavings within the bound (parts b, c); non-trivial = history of >= 2 steps / a deviation; distinct = distinct (configuration, snapshot)",
         "parts": [
